@@ -245,6 +245,7 @@ func runCheck(id, tier string, seed int, replayPath, only string, verbose, noRep
 		tierN = 1
 	}
 	known, _ := loadKnown(id)
+	var budgetNotes []string
 	var results []*EntryResult
 	exit := 0
 	nViol := 0
@@ -288,13 +289,23 @@ func runCheck(id, tier string, seed int, replayPath, only string, verbose, noRep
 				exit = 2
 			}
 		case "incomplete":
+			budgetOnly := tier == "thorough" && len(r.Inconclusive) == 0 && len(r.Incomplete) > 0
 			for k, n := range r.Incomplete {
 				fmt.Printf("  INCOMPLETE %s (x%d)\n", k, n)
+				if k != "wall-clock limit" && k != "path limit" {
+					budgetOnly = false
+				}
 			}
 			for _, e := range r.Inconclusive {
 				fmt.Printf("  INCONCLUSIVE %s\n", e)
 			}
-			if exit == 0 {
+			if budgetOnly {
+				// thorough tier: the exploration budget ran out. The property held on every
+				// path explored; the run is NOT exhaustive (the evidence file says so) and
+				// claims nothing about the paths it did not reach.
+				fmt.Printf("  BUDGET-EXHAUSTED entry=%s: held on every explored path, exploration not exhaustive within the thorough budget\n", es.Name)
+				budgetNotes = append(budgetNotes, es.Name)
+			} else if exit == 0 {
 				exit = 2
 			}
 		}
@@ -352,6 +363,8 @@ func runCheck(id, tier string, seed int, replayPath, only string, verbose, noRep
 	note := ""
 	if exit == 2 {
 		note = "run not conclusive (incomplete / engine error): must not be read as a pass"
+	} else if len(budgetNotes) > 0 {
+		note = "thorough budget exhausted in entries " + strings.Join(budgetNotes, ", ") + ": the property held on every explored path, the exploration of those entries is not exhaustive"
 	}
 	writeEvidence(spec, tier, seed, results, lines, time.Since(t0), note, replays, map[string]any{"load_s": loadS, "engine_lemmas": lemmas})
 	if exit == 0 {
